@@ -1494,6 +1494,41 @@ impl<'a> HydrateCtx<'a> {
 				}
 			}
 		}
+		// the same transactions on top of a header whose running total of kernel offsets is exactly minus their sum
+		// (the total comes back to zero), and on top of an unrelated non-zero total: a block must come out, with
+		// the modelled total, and it must validate and hydrate back
+		if only.is_none() && exp.sets.offset != ZERO {
+			let unrelated = {
+				let mut x = [0x11u8; 32];
+				x[0] = 0x01;
+				x
+			};
+			for (label, ptotal) in [("running-total-cancels", sc_neg(&exp.sets.offset)), ("running-total-unrelated", unrelated)] {
+				let mut prev2 = self.prev.clone();
+				prev2.total_kernel_offset = grin_keychain::BlindingFactor::from_slice(&ptotal);
+				self.r.evaluations += 1;
+				match Block::from_reward(&prev2, &txs, rout.clone(), rker.clone(), Difficulty::min_dma()) {
+					Err(e) => self.bad(&format!("block:{}:err", label), format!("{} on a header whose total kernel offset is {}: expected a block, got Err({:?})", desc, if label.ends_with("cancels") { "minus the sum of the transactions' offsets" } else { "an unrelated non-zero value" }, e), case0.clone()),
+					Ok(mut b2) => {
+						fixed_time(&mut b2, &prev2);
+						let want_total = sc_add(&ptotal, &exp.sets.offset);
+						let got_total = sc_from(b2.header.total_kernel_offset.as_ref());
+						if got_total != want_total {
+							self.bad(&format!("block:{}:offset", label), format!("{}: header total kernel offset {} expected {}", desc, hex(&got_total), hex(&want_total)), case0.clone());
+						} else if let Err(e) = b2.validate(&prev2.total_kernel_offset) {
+							self.bad(&format!("block:{}:invalid", label), format!("{}: the block built on that header does not validate against it: {:?}", desc, e), case0.clone());
+						} else {
+							let cb = CompactBlock::from(b2.clone());
+							match Block::hydrate_from(cb, &txs) {
+								Ok(h) if same_block(&h, &b2, &bytes_of(&b2)) => self.r.outcome(&format!("block:{}:ok", label)),
+								Ok(_) => self.bad(&format!("block:{}:hydrate-differs", label), format!("{}: hydrating its compact form gives another block", desc), case0.clone()),
+								Err(e) => self.bad(&format!("block:{}:hydrate-err", label), format!("{}: hydrate_from = {:?}", desc, e), case0.clone()),
+							}
+						}
+					}
+				}
+			}
+		}
 		// aggregates of every non-empty group of members (what a pool may hold instead of singles)
 		let k = set.len();
 		let mut group_tx: Vec<Option<Transaction>> = vec![None; 1 << k];
